@@ -15,6 +15,10 @@ CHECKS = {
          "For a fully populated and an empty link and layout in both wrappers: the signable bytes equal ref.Canon of a tree whose field names the reference spells out itself (a changed struct tag or omitempty is a disagreement); every reflective single-point alteration yields different bytes (injectivity); 24 characters are placed into every string leaf, an artifact path and a by-product key - legacy bytes equal the reference, the DSSE payload is valid JSON decoding to the value that was set, and the library's own loader reads the dumped file back with a valid signature; five re-serialisations of every dumped file load to identical signable bytes through both loaders; non-integral numbers are refused by encoder and Sign without leaving a signature; every history of set / mutate-in-place / re-set / sign on one envelope up to depth 3 (4) leaves a payload equal to the value last set.",
          "Trusted: ref.Canon, refschema (the spelled-out schema), encoding/json as strict JSON validator. Outside: invalid UTF-8, numbers beyond int64, nil-vs-empty distinctions.",
          "DESIGN.md §3 C11"),
+ "C12": ("bounded-exhaustive structural corruption walk over dumped metadata (document and an independently spelled schema walked in parallel), round-trip products and validator rule x position enumeration",
+         "Round trip of five catalogue metadata x wrappers x loaders x 0-2 signatures and of every ordered pair of dumps to one path; every single-point structural corruption (each member at every nesting level dropped / renamed / nulled / retyped to every other JSON type, unknown member in every object, entry and element retypes, type-marker and payload-type variants, payload not base64 / JSON / object, truncation after every structural character) of the dumped full link and layout through both loaders, judged by what the statement demands for the position (refuse / accept / don't-care); ValidateMetablock on the valid catalogue and on 100+ single violations of format rules at each position they can occur.",
+         "Trusted: the schema in props/c12/schema.go. Outside: >= 2 simultaneous corruptions, duplicate members, letter-case variants.",
+         "DESIGN.md §3 C12"),
  "C17": ("bounded-exhaustive enumeration of all patterns x all names over metacharacter alphabets, differential against a reference matcher",
          "Every pattern up to length 5 (quick) / 6 (thorough) over an alphabet holding every metacharacter, against every name up to length 4 / 5, "
          "plus a metacharacter-name and a UTF-8 alphabet, is pushed through Set.Filter and compared with an independent backtracking matcher written from the documented grammar; "
